@@ -213,16 +213,7 @@ def check_constructor(ctx, pkg, name, cls):
         ctx.check(bool(p2) and all(p.outcome == "raise" and p.exc.exc_name == "ValueError" for p in p2), rule, f"{name}|collective_saving-univariate", loc, "a multivariate collective saving is rejected with ValueError", found=[(p.outcome, p.exc.exc_name if p.exc else "") for p in p2][:4])
 
 
-def atoms_of_cond(c: Cond):
-    t = c.t
-    if t[0] == "cmp":
-        return list(atoms_of(t[2]).values())
-    if t[0] in ("and", "or"):
-        return atoms_of_cond(t[1]) + atoms_of_cond(t[2])
-    if t[0] in ("not", "all", "any"):
-        return atoms_of_cond(t[1])
-    return []
-
+from .common import atoms_of_cond  # noqa: E402,F401
 
 def _primary_param(c: Cond, params):
     """which table parameter a guard is 'about': the value being tested is the one that occurs
